@@ -200,6 +200,18 @@ def run_T(desc, ctx):
         d = os.path.join(ctx.workdir, "T%d" % ci)
         os.makedirs(d, exist_ok=True)
         paths, _ = gen.materialize(ds, d, None)      # stored ascending (well-formed files)
+        if len(paths) >= 2 and len(set(os.path.splitext(p_)[1] for p_ in paths)) == 1 and rng.random() < 0.4:
+            # experiments usually keep the same file name in different directories
+            import shutil
+            newp = []
+            for i_, p_ in enumerate(paths):
+                sub = os.path.join(d, "exp%d" % i_)
+                os.makedirs(sub, exist_ok=True)
+                q_ = os.path.join(sub, "fcst" + os.path.splitext(p_)[1])
+                shutil.copy(p_, q_)
+                newp.append(q_)
+            paths = newp
+            ctx.count("T_same_basename_families")
         case = {"ds": ds, "h": h, "tx": tx, "agg": agg}
         try:
             data = vutil.build_data(paths, dim_agg_length=h, dim_agg_axis=verif.axis.get(tx),
@@ -312,8 +324,7 @@ def run_T(desc, ctx):
                                   "-T %d -Tagg %s -Tx %s: a NetCDF file whose %s entries are stored in descending order gives different "
                                   "scores than the same data stored ascending:\n%s\nvs\n%s" % (h, agg, tx, key, r1, r2), case)
         # ensemble members and probabilities/quantiles derived from the ensemble
-        if ens and all(i["members"] == ds["inputs"][0]["members"] for i in ds["inputs"]):
-            k = 0
+        for k in (range(F) if (ens and all(i["members"] == ds["inputs"][0]["members"] for i in ds["inputs"])) else []):
             inp = ds["inputs"][0]
             M = inp["members"]
             got = np.array(data.get_scores(verif.field.Ensemble(0), k))
@@ -355,7 +366,7 @@ def run_T(desc, ctx):
                                               "-T %d -Tagg %s -Tx %s: median from the ensemble at cell (%s,%s,%s) = %r lies outside the range "
                                               "[%r, %r] of the pre-aggregated members" % (h, agg, tx, t, l, s[0], gq, lo, hi), case)
             ctx.case("%s|%s|%s|ensemble|%s" % (wclass, agg, tx, fmt), nontrivial)
-        else:
+        if not ens:
             ctx.count("T_members", 0)
         # CLI
         if all("fcst" in i["has"] for i in ds["inputs"]):
